@@ -1180,7 +1180,17 @@ func verifyGitObjectAndAttestations(ctx context.Context, policy *State, target s
 	if !options.tagObjectID.IsZero() {
 		// Verify tag object's signature as well
 		tagObjVerified := false
+		hasSpecificVerifier := false
 		for _, verifier := range verifiers {
+			if verifier.verifyExhaustively {
+				// The exhaustive verifier (present when global rules
+				// exist) never fails, it only counts authenticated
+				// principals for global rules. It cannot vouch for the tag
+				// object's signature.
+				continue
+			}
+			hasSpecificVerifier = true
+
 			// explicitly not looking at the attestation
 			// that applies to the _push_
 			// thus, we also set threshold to 1
@@ -1203,7 +1213,7 @@ func verifyGitObjectAndAttestations(ctx context.Context, policy *State, target s
 			// Haven't found a valid verifier, continue with next verifier
 		}
 
-		if !tagObjVerified {
+		if hasSpecificVerifier && !tagObjVerified {
 			return "", false, fmt.Errorf("verifying tag object's signature failed")
 		}
 	}
